@@ -433,6 +433,25 @@ def fields_arg(spec):
     return names
 
 
+class OwnPalette(akcolor.Palette):
+    """the palette of an application's field type: not related to the standard record palette"""
+    SYNTAX_DEFAULTS = {"APPVAL.VALUE": "CYAN", "APPVAL.NONE": "APPVAL.VALUE:faint"}
+    value = ConfColor("APPVAL.VALUE")
+    none = ConfColor("APPVAL.NONE")
+
+
+class OwnPaletteFieldType(FieldType):
+    """an application's field type with a palette of its own (documented: PALETTE_CLASS + the cell hook)"""
+    PALETTE_CLASS = OwnPalette
+
+    def make_desired_cell_ch_chunks(self, value, fmt_modifier, field_palette):
+        if fmt_modifier is not None:
+            raise ValueError(f"no format modifiers here: {fmt_modifier!r}")
+        if value is None:
+            return [field_palette.none("-")], akppobj.ALIGN_LEFT
+        return [field_palette.value(str(value))], akppobj.ALIGN_LEFT
+
+
 class LegendTable(PPTable):
     """a user's table class: the documented line generator is overridden to append a legend"""
 
@@ -530,6 +549,10 @@ def build_object(spec, enums):
             ft = kw.setdefault("fields_types", {})
             for n, args in spec["wtypes"].items():
                 ft.setdefault(n, width_field_type(args))
+        if spec.get("own_palette_cols"):
+            # every column has the application's field type with a palette of its own: the table itself never asks
+            # for the standard record palette
+            kw["fields_types"] = {n: OwnPaletteFieldType() for n in spec["fields"]}
         if spec.get("poison"):
             kw.setdefault("fields_types", {}).setdefault(spec["poison"], RaisingFieldType())
         if spec.get("titles"):
